@@ -342,12 +342,15 @@ def run_tee(case, stats):
     lead = 8 if pat in ("lead8", "lag_then_close") else 1
     census = Census(2 + 2 + lead + nchild)
     stream = Stream(census, n)
+    info = {}
 
     async def main():
         if pat.startswith("biglag_close"):
             # one child leads by half the stream, a started lagging child is then closed while the
             # leader does NOT fetch again: the backlog held for the closed child must be released at once
-            kids3 = list(A.tee(stream, 3))
+            handle3 = A.tee(stream, 3)  # kept for the whole run, like ``async with tee(...) as children``
+            info["handle"] = handle3
+            kids3 = list(handle3)
             lagger = {"biglag_close_last": 2, "biglag_close_middle": 1, "biglag_close_first": 0}[pat]
             leader = 0 if lagger != 0 else 2
             other = 3 - lagger - leader
